@@ -117,6 +117,11 @@ struct Tok { int v; Tok() : v(-1) {} explicit Tok(int x) : v(x) {} Tok(const Tok
 inline bool operator==(const Tok& x, const Tok& y) { return x.v == y.v; }
 inline bool operator!=(const Tok& x, const Tok& y) { return !(x == y); }
 template <> Tok mk<Tok>(int i) { return Tok(i * 31 + 5); }
+// a record wider than a machine word whose leading bytes are all alike and whose tail differs (a filler that is "almost" one repeated byte)
+struct Wide { uint64_t head; uint32_t mid; uint16_t tail; uint8_t last; };
+inline bool operator==(const Wide& x, const Wide& y) { return x.head == y.head && x.mid == y.mid && x.tail == y.tail && x.last == y.last; }
+inline bool operator!=(const Wide& x, const Wide& y) { return !(x == y); }
+template <> Wide mk<Wide>(int i) { return Wide{(i % 3) == 0 ? 0ull : (i % 3) == 1 ? 0xFFFFFFFFFFFFFFFFull : 0x1111111111111111ull, static_cast<uint32_t>((i % 2) ? 0 : i + 1), static_cast<uint16_t>(i * 3 + 7), static_cast<uint8_t>(i + 1)}; }
 
 // an object between two runs of known bytes: the containers never write outside themselves
 template <typename A> struct Guarded { uint8_t pre[16]; A obj; uint8_t post[16];
@@ -206,7 +211,7 @@ template <typename T, int C> struct DA {
 	}
 };
 template <int C> struct ArrAll { static void run(int w, int W) {
-	if (C % W == w && !out_of_time()) { snprintf(me().inflight, sizeof me().inflight, "arrays:C=%d", C); SA<uint8_t, C>::run("u8"); SA<Elem, C>::run("struct"); DA<uint8_t, C>::run("u8"); DA<Elem, C>::run("struct"); DA<Tok, C>::run("handle"); }
+	if (C % W == w && !out_of_time()) { snprintf(me().inflight, sizeof me().inflight, "arrays:C=%d", C); SA<uint8_t, C>::run("u8"); SA<Elem, C>::run("struct"); DA<uint8_t, C>::run("u8"); DA<Elem, C>::run("struct"); DA<Tok, C>::run("handle"); if (C <= 40 || C % 32 == 31) { SA<Wide, C>::run("wide"); DA<Wide, C>::run("wide"); } }
 	ArrAll<C - 1>::run(w, W); } };
 template <> struct ArrAll<VX_CLO - 1> { static void run(int, int) {} };
 
